@@ -495,13 +495,67 @@ DETAIL["c09_deep_expression"] = lambda fam, di, mode: {"source_head": deep_sourc
                                                       "outcome": deep_outcome(fam, _DEPTHS[di], mode)}
 CONDITIONS.append({"fn": "c09_deep_expression", "quick": 60, "thorough": 120, "sel_only": True})
 
+# ---- T5 an opening followed by a long run of filler and no closing delimiter is rejected (or accepted) promptly ----------
+_LR_PRE = ["{%", "{{", "{% if", "{#", "{%-", "{% raw %}", "{% comment %}", "{{ x |", "{% liquid", "{{-", "{% doc %}", "{% a b", "{{ a",
+           "{% liquid if x" + chr(10), "{% liquid echo", "{% assign x =", "{% for i in", "{{ x | append:", "{% if a ==", "{% include 'a'",
+           "{% cycle", "{% translate %}", "{% case x %}{% when", "{{ 'a", "{{ a[", "{{ (1.."]
+_LR_FILL = [" ", chr(10), " a", chr(9), ",", " ,", "x:", " |", "-", "%", "}", " -"]
+_LR_N = (800, 4000)
+
+
+class _CEnv(Environment):
+    template_comments = True
+
+
+_LR_ENVS = {}
+
+
+def long_run_outcome(pi, fi, ni, comments):
+    """seconds taken by from_string (5.0 = gave up), whatever it returns or raises"""
+    import time
+    key = comments
+    if key not in _LR_ENVS:
+        _LR_ENVS[key] = (_CEnv if comments else Environment)(extra=True)
+    src = _LR_PRE[pi] + _LR_FILL[fi] * _LR_N[ni]
+    old = signal.signal(signal.SIGALRM, _alarm)
+    signal.alarm(5)
+    t0 = time.time()
+    try:
+        try:
+            _LR_ENVS[key].from_string(src)
+        except _Hang:
+            return 5.0
+        except Exception:
+            pass
+        return round(time.time() - t0, 2)
+    finally:
+        signal.alarm(0)
+        signal.signal(signal.SIGALRM, old)
+
+
+def c09_parse_long_runs(pi: int, fi: int, ni: int, comments: bool) -> bool:
+    """
+    pre: 0 <= pi <= 25 and 0 <= fi <= 11 and 0 <= ni <= 1
+    post: _
+    """
+    if excluded("c09_parse_long_runs", locals()):
+        return True
+    from vf.hx import cbool
+    pi, fi, ni, comments = cint(pi, 0, 25), cint(fi, 0, 11), cint(ni, 0, 1), cbool(comments)
+    return finish(untraced(lambda: long_run_outcome(pi, fi, ni, comments) < 5.0))
+
+
+DETAIL["c09_parse_long_runs"] = lambda pi, fi, ni, comments: {"source": repr(_LR_PRE[pi]) + " + " + repr(_LR_FILL[fi]) + " * %d" % _LR_N[ni],
+                                                             "template_comments": comments, "seconds (5.0 = gave up)": long_run_outcome(pi, fi, ni, comments)}
+CONDITIONS.append({"fn": "c09_parse_long_runs", "quick": 90, "thorough": 200, "sel_only": True})
+
 ASSUMPTIONS = [
     "recursion families are the concrete templates of harness/c09.py; the recursive call sits inside d nested {% if %} blocks; context_depth_limit is symbolic in 0..6 (T1)",
     "T2 is a measured cost model: frame depth is measured with sys._getframe at a probe tag for 9 (levels, depth) points, fitted exactly to a + b*d + levels*(c + e*d) and cross-checked on 2 more points; z3 decides whether the default limits admit a depth beyond the interpreter's recursion limit, and the witness is replayed on the real code",
     "T4 runs with sys.setrecursionlimit(1000 + current depth), the interpreter default seen from the caller of from_string",
     "a render that ends in any LiquidError (ContextDepthError, or one raised on stack exhaustion) counts as cut off; RecursionError reaching the caller is the violation",
 ]
-OUTSIDE = ["expression nesting deeper than 3000 levels and nesting shapes other than the 12 families of deep_source (T4)", "termination of parsing for sources outside the generated family of unterminated / unbalanced openings (T3 is solver-steered enumeration)", "'finishes promptly' (no time bound is decided)", "recursion through custom tags or drops", "context_depth_limit above 6 in T1"]
+OUTSIDE = ["expression nesting deeper than 3000 levels and nesting shapes other than the 12 families of deep_source (T4)", "termination of parsing for sources outside the generated family of unterminated / unbalanced openings (T3 is solver-steered enumeration)", "'finishes promptly' beyond the 5 s alarm of T3/T5 on this host (sources of <= 48 KB)", "recursion through custom tags or drops", "context_depth_limit above 6 in T1"]
 
 
 def selftest():
